@@ -149,6 +149,16 @@ fn closure_cases(tier: Tier) -> Vec<(String, Vec<String>, Vec<u8>, bool)> {
     v.push(("filtered data to stdout".into(), s(&["-f", "0"]), clean.clone(), true));
     v.push(("report".into(), s(&["check", "all", "its"]), faulty.clone(), false));
     v.push(("statistics to stdout".into(), s(&["check", "sanity", "-S", "stdout", "-D", "json"]), clean.clone(), false));
+    // small outputs: everything the tool writes stays in its own buffers until the very end, so the closed pipe is
+    // first noticed by the final flush (1, 2, 3 HBFs of one link: filtered data of a few hundred bytes; a short view)
+    for hbfs in [1usize, 2, 3] {
+        let (_, small) = streams::multi_link(1, hbfs, 0, false, false);
+        v.push((format!("filtered data to stdout, {} bytes", small.len()), s(&["-f", "0"]), small.clone(), true));
+        if hbfs == 1 {
+            v.push(("view rdh, short".into(), s(&["view", "rdh"]), small.clone(), false));
+            v.push(("statistics to stdout, short".into(), s(&["check", "sanity", "-S", "stdout", "-D", "toml"]), small, false));
+        }
+    }
     if tier.is_thorough() {
         v.push(("view its-readout-frames-data".into(), s(&["view", "its-readout-frames-data"]), clean.clone(), false));
         v.push(("statistics toml to stdout".into(), s(&["check", "all", "-S", "stdout", "-D", "toml"]), faulty, false));
